@@ -498,7 +498,25 @@ impl<'a> Run<'a> {
         if let Some(dir) = path.parent() {
             fatal::create_dir_all(dir)?;
         }
-        fatal::write_file(&path, content)
+
+        // Write to a temporary file first and move that into place so that
+        // an interrupted write cannot leave a truncated certificate behind.
+        let mut tmp_file = self.store.tmp_file()?;
+        if let Err(err) = tmp_file.write_all(content) {
+            error!(
+                "Fatal: failed to write to file {}: {}",
+                tmp_file.path().display(), err
+            );
+            return Err(Failed)
+        }
+        if let Err(err) = tmp_file.persist(&path) {
+            error!(
+                "Fatal: failed to persist temporary file {} to {}: {}",
+                err.file.path().display(), path.display(), err.error,
+            );
+            return Err(Failed)
+        }
+        Ok(())
     }
 
     /// Accesses the repository for the provided RPKI CA.
